@@ -487,7 +487,11 @@ fn config_writes(be: &MemBackend) -> usize {
     be.log().iter().filter(|o| o.write && o.tpe == FileType::Config).count()
 }
 
-fn exec_seq(toks: &[&str]) -> String {
+/// `seq`: the repository is re-opened before every `apply_config`; `seq1` (`one_handle`): every `apply_config` is issued on
+/// ONE handle that stays open (its in-memory config is what the next call starts from).  Same expectation
+/// (`Props/C18.handle_config_follows_store_seq`).  In both forms the handle's in-memory config (`repo.config()`) is observed
+/// after every call: refused => as before the call; otherwise => equal to the stored config.
+fn exec_seq(toks: &[&str], one_handle: bool) -> String {
     let Some(steps) = toks[1].split(';').map(parse_opts).collect::<Option<Vec<_>>>() else { return "bad-op".into() };
     let be = MemBackend::new();
     let (h, repo) = match RepoHandle::init_oc(be.clone(), None, &steps[0]) {
@@ -501,12 +505,23 @@ fn exec_seq(toks: &[&str]) -> String {
     };
     drop(repo);
     let mut res = Vec::new();
+    let mut live = None;
     for o in &steps[1..] {
-        let mut repo = match h.open_oc() {
-            Ok(r) => r,
-            Err(e) => return format!("{}@open", errkind(&e)),
+        let mut repo = match live.take() {
+            Some(r) => r,
+            None => match h.open_oc() {
+                Ok(r) => r,
+                Err(e) => return format!("{}@open", errkind(&e)),
+            },
         };
         let before = repo.config().clone();
+        let stored_before = match h.open_oc() {
+            Ok(r) => r.config().clone(),
+            Err(e) => return format!("{}@reopen", errkind(&e)),
+        };
+        if before != stored_before {
+            return "oracle-fail:handle-config-differs-from-stored-before-call".into();
+        }
         let writes_before = be.log().len();
         let r = repo.apply_config(o);
         let stored = match h.open_oc() {
@@ -518,14 +533,27 @@ fn exec_seq(toks: &[&str]) -> String {
                 if !changed && (stored != before || be.log().len() != writes_before) {
                     return "oracle-fail:unchanged-but-written".into();
                 }
+                if !changed && *repo.config() != before {
+                    return "oracle-fail:unchanged-but-handle-config-altered".into();
+                }
+                if *repo.config() != stored {
+                    return "oracle-fail:handle-config-differs-from-stored".into();
+                }
                 res.push(if changed { "changed".to_string() } else { "same".to_string() });
             }
             Err(e) => {
                 if stored != before || be.log().len() != writes_before {
                     return "oracle-fail:refused-change-touched-stored-config".into();
                 }
+                // the in-memory copy of the handle (what every append-only guard reads) is untouched as well
+                if *repo.config() != before {
+                    return "oracle-fail:refused-change-altered-handle-config".into();
+                }
                 res.push(errkind(&e));
             }
+        }
+        if one_handle {
+            live = Some(repo);
         }
     }
     let fin = match h.open_oc() {
@@ -545,9 +573,10 @@ pub fn exec(toks: &[&str]) -> String {
         match (toks.first().copied(), toks.len()) {
             (Some("apply"), 3) => {
                 let (Some(mut c), Some(o)) = (parse_cfg(toks[1]), parse_opts(toks[2])) else { return "bad-op".into() };
+                // on `Err` the `&mut` target is left partly assigned: part of the observation (model `applyMut`)
                 match o.apply(&mut c) {
                     Ok(()) => format!("ok {}", show_cfg(&c)),
-                    Err(e) => errkind(&e),
+                    Err(e) => format!("{} | {}", errkind(&e), show_cfg(&c)),
                 }
             }
             (Some("rabin"), 4) => {
@@ -583,7 +612,8 @@ pub fn exec(toks: &[&str]) -> String {
                 };
                 format!("ok {}", rustic_core::verif::packer::pack_size(&c, bt, cur))
             }
-            (Some("seq"), 2) => exec_seq(&toks),
+            (Some("seq"), 2) => exec_seq(&toks, false),
+            (Some("seq1"), 2) => exec_seq(&toks, true),
             (Some("limits"), 5) => exec_limits(&toks),
             _ => "bad-op".into(),
         }
@@ -956,6 +986,9 @@ pub fn generate(thorough: bool, rng: &mut Rng, ops: &mut Vec<String>, stats: &mu
         }
         ops.push(format!("c18 seq {}", steps.join(";")));
         stats.hit("op.seq");
+        // the same changes on ONE open handle
+        ops.push(format!("c18 seq1 {}", steps.join(";")));
+        stats.hit("op.seq1");
     }
     for _ in 0..600 * k {
         ops.push(format!("c18 limits {} {} {} {}", gen_limit_any(rng), gen_limit_any(rng), rng.pick(&["-", "-", "-", "a", "u", "au"]), gen_limit_packs(rng)));
